@@ -188,3 +188,8 @@ def run(ctx):
 
     # ---- the accessor through which the collected entries are observed
     accessor_faithful(ctx, "D1-ACCESSOR", "summary::SummaryStream::entries", "entries")
+
+    # ---- D4-ENTRY-VALIDITY: "a write no later than the one that completes a malformed entry fails" rests on Summary::from_str rejecting what is
+    #      malformed: its required-variable checks and line rules (C08's D2-REQUIRED-FROMSTR / D2-ORDER / D3-PARSELINE verdicts, shared)
+    share_rules(ctx, "C08", ("D2-REQUIRED-FROMSTR", "D2-ORDER", "D3-PARSELINE"), "D4-ENTRY-VALIDITY", "<summary::Summary as std::str::FromStr>::from_str", 6)
+
